@@ -115,6 +115,11 @@ class Scheduler:
             raise _Abort()
         t.pending = None
 
+    def timed_out(self):
+        t = self.me()
+        if t is not None:
+            t.yielded = True
+
     def record(self, label, result=""):
         t = self.me()
         if t is not None:
@@ -131,7 +136,8 @@ class Scheduler:
                     ok = False
                 if ok:
                     res.append(name)
-        return res
+        fresh = [n for n in res if not getattr(self.threads[n], "yielded", False)]
+        return fresh if fresh else res
 
     def unfinished(self):
         return [(n, t.pending[0] if t.pending else "?") for n, t in self.threads.items() if not t.finished]
@@ -142,6 +148,9 @@ class Scheduler:
         if t.finished or t.pending is None or not t.pending[1]():
             raise SchedulerError(f"thread {name} is not enabled")
         self.current = t
+        for other in self.threads.values():
+            if other is not t:
+                other.yielded = False
         t.sem.release()
         self.control.acquire()
         for tt in self.threads.values():
@@ -269,9 +278,18 @@ class SimEvent:
         return self.flag
 
     def wait(self, timeout=None):
-        self.sched.visible(f"{self.name}.wait", lambda: self.flag)
-        self.sched.record(f"{self.name}.wait")
-        return True
+        if timeout is None:
+            self.sched.visible(f"{self.name}.wait", lambda: self.flag)
+            self.sched.record(f"{self.name}.wait")
+            return True
+        # a timed wait never blocks for good: it is a visible operation that reports the flag; when it times out, real time
+        # has passed, i.e. every other thread had the chance to run — the scheduler does not pick this thread again before
+        # somebody else moved (if anybody can)
+        self.sched.visible(f"{self.name}.wait_timeout")
+        self.sched.record(f"{self.name}.wait_timeout", int(self.flag))
+        if not self.flag:
+            self.sched.timed_out()
+        return self.flag
 
 
 class SimLock:
